@@ -17,7 +17,7 @@ theorem c16_text_agrees_fr (mcfg : Model.Machine.Cfg) (hfr : mcfg.fr = true) (ha
     (ext : Spec.Program.Ext) (hext : Spec.Program.ExtOK ext) (hr : SJ.Proofs.LexTopRoundtrip.RyuShortest ext) (ext' : Ext)
     (s : Schema) (hs : Proofs.Typed.agreeFrag2 s = true)
     (v : JV) (hv : Spec.WF.shapeOK (Proofs.CanonM.specCfg mcfg) v = true)
-    (hx : v.hasArrayPayload s.structVariantNames = false)
+    (hx : s.svArr v = false)
     (hd : mcfg.limitOff = true ∨ Spec.WF.depthJV v ≤ 127) :
     ∃ bufs, Model.Ser.serCompact ext (Model.Ser.ofValue v) = .ok bufs ∧
       (match fromValue { po := mcfg.po, fr := mcfg.fr, ap := false } ext' s v with
